@@ -376,6 +376,9 @@ var probeSources = []string{
 	"PtrM(1)", "PtrM(A) + 1", "index + 1", "not info",
 	// a field promoted from an embedded pointer that is nil: reading it fails, it must not be "repaired" in the caller's value
 	"PromV", "PromV + 1", "[A, PromV]", "EmbV + Lvl",
+	// a number looked up in a map whose keys hold it under other widths; failing
+	// operations on a struct value that holds pointers
+	"Mi[7]", "Mi[A - A + 7]", "[Mi[7], Mi[\"k\"]]", "Av[1:2]", "Av[0]", "Av + 1", "Av.Nope", "len(Av)", "Av in Xs", "Av[A:]", "-Av",
 }
 
 // genFeedback builds programs that return nested VM-built collections and/or
@@ -528,7 +531,18 @@ func (p ProgSpec) Src() string {
 	if p.Tree == nil {
 		return p.Raw
 	}
-	return Print(p.Tree, Layout{}).Src
+	// Half of the programs (decided by the text itself, so that the source follows
+	// the tree through shrinking) are laid out over several lines with tabs and
+	// runs of blanks: error snippets are cut from, and tabs replaced in, such text.
+	flat := Print(p.Tree, Layout{}).Src
+	h := uint64(14695981039346656037)
+	for i := 0; i < len(flat); i++ {
+		h = (h ^ uint64(flat[i])) * 1099511628211
+	}
+	if h%2 == 0 {
+		return Print(p.Tree, Layout{Mode: 2, Salt: h}).Src
+	}
+	return flat
 }
 
 // vmOpts are the compile options of a vmsim scenario.
@@ -663,6 +677,15 @@ func runVMHistory(sc *VMScenario, ctx *RunCtx, prop string) *Finding {
 	for i := range machines {
 		machines[i] = &vm.VM{}
 	}
+	// what earlier runs returned (values and errors), with their rendering at the
+	// time: it is the caller's from then on and later runs must leave it alone
+	type keptResult struct {
+		op   int
+		val  interface{}
+		err  error
+		text string
+	}
+	var keptResults []keptResult
 	var progSnap []string
 	if prop == "C09" {
 		for _, p := range progs {
@@ -742,6 +765,31 @@ func runVMHistory(sc *VMScenario, ctx *RunCtx, prop string) *Finding {
 		if got.Err == nil && !got.Panicked {
 			lastOut[op.VM] = got.Out
 			lastCopy[op.VM] = deepCopy(got.Out)
+		}
+		for _, k := range keptResults {
+			now := ""
+			if k.err != nil {
+				now = k.err.Error()
+			} else {
+				now = Canon(k.val)
+			}
+			if now != k.text {
+				return &Finding{Class: prop + "/earlier-result-changed", Detail: fmt.Sprintf("op %d (%s) changed what op %d had returned to its caller\n then: %s\n now:  %s\nprogram: %s", opi, label, k.op, k.text, now, cp.src)}
+			}
+		}
+		if !got.Panicked && (got.Err != nil || !persist) {
+			// (a value computed from the caller's persistent environment may alias it,
+			// and the caller changes that environment between runs: errors only there)
+			k := keptResult{op: opi, val: got.Out, err: got.Err}
+			if got.Err != nil {
+				k.text = got.Err.Error()
+			} else {
+				k.text = Canon(got.Out)
+			}
+			if len(keptResults) >= 4 {
+				keptResults = keptResults[1:]
+			}
+			keptResults = append(keptResults, k)
 		}
 		ctx.Eval()
 		ctx.Logf("op %d %s vm=%d prog=%d env=%d budget=%d crash=%d faults=%v: reused %s | fresh %s", opi, label, op.VM, op.Prog, op.Env, op.Budget, crash, op.Faults, firstLine(got.Key()), firstLine(want.Key()))
@@ -974,7 +1022,7 @@ func vmShrinks(sc *VMScenario) []interface{} {
 		if p.Tree != nil {
 			for _, t := range treeShrinks(p.Tree) {
 				t := t
-				add(func(c *VMScenario) { c.Progs[pi].Tree = t; c.Progs[pi].Source = Print(t, Layout{}).Src })
+				add(func(c *VMScenario) { c.Progs[pi].Tree = t; c.Progs[pi].Source = c.Progs[pi].Src() })
 			}
 		}
 		if !p.Optimize {
